@@ -118,6 +118,9 @@ func (c Cfg) Object(depth int) *rapid.Generator[*ref.V] {
 		}
 		for i := 0; i < n; i++ {
 			k := rapid.SampledFrom(c.Keys).Draw(t, "k")
+			if OneIn(t, 150, "longkey") {
+				k = strings.Repeat("n", 1100) + k // longer than any bounded error message or scratch buffer
+			}
 			if _, ok := o.Get(k); ok {
 				continue
 			}
@@ -313,6 +316,8 @@ type OpGen struct {
 	Legacy bool
 	// MissKinds restricts the near-miss kinds (see Miss); nil = all ten.
 	MissKinds []int
+	// NoNegInner: never re-spell an inner array index negatively (properties whose domain excludes negative indices).
+	NoNegInner bool
 	// Orig: the document as it was before the first operation. A mismatching
 	// test value is often the value the location had THEN (an implementation
 	// that looks at stale text of an edited container lets such a test pass).
@@ -462,6 +467,10 @@ func (g *OpGen) miss(t *rapid.T, label string) bool {
 // PathFor draws a path for an operation that needs an existing target
 // (forAdd=false) or an insertion point (forAdd=true).
 func (g *OpGen) PathFor(t *rapid.T, cur *ref.V, label string, forAdd bool) string {
+	return g.negInner(t, cur, g.pathFor(t, cur, label, forAdd), label)
+}
+
+func (g *OpGen) pathFor(t *rapid.T, cur *ref.V, label string, forAdd bool) string {
 	if g.miss(t, label) {
 		return g.Miss(t, cur, label)
 	}
@@ -472,6 +481,61 @@ func (g *OpGen) PathFor(t *rapid.T, cur *ref.V, label string, forAdd bool) strin
 		return p
 	}
 	return g.Miss(t, cur, label)
+}
+
+// negInner re-spells, one time in eight, one NON-final array index of the
+// pointer as the equivalent negative index (i - len). With negative indices on
+// this is another spelling of the same location; with them off it is a
+// near-miss of its own kind: a negative index on the way, not at the end.
+func (g *OpGen) negInner(t *rapid.T, cur *ref.V, path, label string) string {
+	if g.NoNegInner || !strings.HasPrefix(path, "/") || !OneIn(t, 8, label+"neginner") {
+		return path
+	}
+	toks := strings.Split(path[1:], "/")
+	v := cur
+	var cands []int
+	for i, tk := range toks[:len(toks)-1] {
+		if v == nil {
+			break
+		}
+		switch v.K {
+		case ref.KArr:
+			n, neg, ok := ref.ParseIdx(tk)
+			if !ok || neg || n >= len(v.Arr) {
+				v = nil
+				continue
+			}
+			cands = append(cands, i)
+			v = v.Arr[n]
+		case ref.KObj:
+			nv, ok := v.Get(ref.DecodeTok(tk))
+			if !ok {
+				v = nil
+				continue
+			}
+			v = nv
+		default:
+			v = nil
+		}
+	}
+	if len(cands) == 0 {
+		return path
+	}
+	// recompute the array length at the chosen position
+	pick := cands[Uniform(t, 0, len(cands)-1, label+"negat")]
+	v = cur
+	for i, tk := range toks[:pick] {
+		_ = i
+		if v.K == ref.KArr {
+			n, _, _ := ref.ParseIdx(tk)
+			v = v.Arr[n]
+		} else {
+			v, _ = v.Get(ref.DecodeTok(tk))
+		}
+	}
+	n, _, _ := ref.ParseIdx(toks[pick])
+	toks[pick] = fmt.Sprint(n - len(v.Arr))
+	return "/" + strings.Join(toks, "/")
 }
 
 // TestValue draws the value of a test against the current document: the
